@@ -31,6 +31,7 @@ class GaussFamily:
         topo = e.get("topo", "lsn")
         self.topo = topo
         self.s = float(e.get("s", 1.0)) * float(e.get("pscale", 1.0))
+        self.L = float(e.get("scale", 1.0))  # geometric scale factor of the whole machine
         dR, dZ = e.get("shift", [0.0, 0.0])
         eps = float(e.get("eps", 0.003))
         r0, z0, w = 1.5 + dR, 0.3, float(e.get("w", 0.3))
@@ -49,10 +50,10 @@ class GaussFamily:
             c = [(r0, dZ, 1.0, w), (r0, -0.62 + dZ, a2, w), (r0, 0.6 + dZ, a2, w)]
         else:
             raise ValueError(topo)
-        self.centres = c
+        self.centres = [(self.L * Rk, self.L * Zk, a, self.L * wk) for Rk, Zk, a, wk in c]
         self.mirror = bool(e.get("mirror", False))
-        self.Rlim = tuple(e.get("Rlim", (1.0, 2.0)))
-        self.Zlim = tuple(e.get("Zlim", (-0.7, 0.7)))
+        self.Rlim = tuple(self.L * x for x in e.get("Rlim", (1.0, 2.0)))
+        self.Zlim = tuple(self.L * x for x in e.get("Zlim", (-0.7, 0.7)))
         self.nR = int(e.get("nR", 65))
         self.nZ = int(e.get("nZ", 65))
         self.fs = float(e.get("fs", 1.0))
@@ -125,9 +126,9 @@ class GaussFamily:
                     dR = (hZZ * gR - hRZ * gZ) / det
                     dZ = (-hRZ * gR + hRR * gZ) / det
                     step = math.hypot(dR, dZ)
-                    if step > 0.05:
-                        dR *= 0.05 / step
-                        dZ *= 0.05 / step
+                    if step > 0.05 * self.L:
+                        dR *= 0.05 * self.L / step
+                        dZ *= 0.05 * self.L / step
                     R -= dR
                     Z -= dZ
                     if not (self.Rlim[0] < R < self.Rlim[1] and self.Zlim[0] < Z < self.Zlim[1]):
@@ -140,7 +141,7 @@ class GaussFamily:
                 gR, gZ = self.grad(R, Z)
                 if math.hypot(gR, gZ) > 1e-9:
                     continue
-                if any(math.hypot(R - f[0], Z - f[1]) < 1e-6 for f in found):
+                if any(math.hypot(R - f[0], Z - f[1]) < 1e-6 * self.L for f in found):
                     continue
                 hRR, hRZ, hZZ = self.hess(R, Z)
                 found.append((float(R), float(Z), float(self.psi(R, Z)), float(hRR * hZZ - hRZ**2)))
@@ -234,6 +235,9 @@ def make_wall(w, mirror=False):
         raise ValueError(kind)
     if w.get("cw", False):
         pts = pts[::-1]
+    sc = float(w.get("scale", 1.0))
+    if sc != 1.0:
+        pts = [(sc * r, sc * z) for r, z in pts]
     if mirror:
         pts = [(r, -z) for r, z in pts]
     return pts
